@@ -81,7 +81,7 @@ Definition check (c : c05case) : bool :=
         end in
       let slack := if trickle then timeout / 6 + 5 * ms else 0 in
       oclass_eqb mcls cls
-      && (mend - t0 - 5 * ms - slack <=? elapsed) && (elapsed <=? mend - t0 + 250 * ms + slack)
+      && (mend - t0 - 5 * ms - slack <=? elapsed) && (elapsed <=? mend - t0 + 400 * ms + slack)
       && hres_eqb (read_res es) h
       && (bytes <=? layer4_MaxMatchingBytes - 1 + layer4_prefetchChunkSize)%Z
       && (match cls with OFull => layer4_MaxMatchingBytes <=? bytes | _ => true end)
